@@ -123,6 +123,8 @@ func (s *StatGroup) GetFpsFrom(p *PeriodRecord, nowUnixSec int64) {
 	p.mu.Lock()
 	defer p.mu.Unlock()
 
+	// 上一次的结果可能还被调用方持有（比如http api正在序列化），不能复用它的底层数组
+	s.Fps = nil
 	if s.Fps == nil || len(s.Fps) < len(p.ringBuf) {
 		s.Fps = make([]RecordPerSec, len(p.ringBuf))
 	}
